@@ -112,6 +112,16 @@ func (m *recMonitor) OnClosedUncleanly(cause error) (bool, time.Duration) {
 
 func (m *recMonitor) OnReopenFailed(prev uint, prevWait time.Duration) (bool, time.Duration) {
 	m.note()
+	{
+		// a reopen attempt has just failed. If the transport is open at this moment, on a connection the runner
+		// itself opened (no user Open raced with it) that has not failed, the runner is acting on a close signal
+		// that belongs to the past: it will burn its attempts on ALREADY_OPEN and leave an open transport
+		// without a monitor
+		if e := m.lc.cur(); e != nil && e.openedBy == "monitor" && !e.streamClosed && !e.faultConsumed && !e.userClose && m.lc.tr.IsOpen() {
+			m.lc.rc.Violate("C15", "monitor-reopens-a-healthy-connection-it-opened", "adapter",
+				fmt.Sprintf("reopen attempt %d failed because epoch %d - opened by the monitor itself and healthy - is open", prev, e.id))
+		}
+	}
 	delete(m.lc.openWhileOpen, simrt.TaskID())
 	r, w := m.base.OnReopenFailed(prev, prevWait)
 	m.lc.mon = append(m.lc.mon, lcMonEvent{kind: "reopen-failed", step: m.lc.s.Step, at: m.lc.s.Now(), reopen: r, wait: w, prev: prev})
@@ -469,6 +479,22 @@ func lifecycleHarness(rc *RunCtx) {
 		e := &lcEpoch{id: ep, openedBy: "user"}
 		if t := simrt.TaskID(); t != "" && t == lc.monTask {
 			e.openedBy = "monitor"
+			if lc.nFaultEpochs < rc.Scale(5, 10) && tp.Intn("dieatonce", 4) == 3 {
+				// the connection the monitor has just made dies at once (a second failure in a row), possibly
+				// before the monitor's runner has even looked at its new transport
+				e.planned = true
+				lc.nFaultEpochs++
+				e.faultKind = []string{"eof", "err"}[tp.Intn("dieatonce", 2)]
+				kind := e.faultKind
+				rc.Fault("reopened-connection-dies-at-once")
+				s.AddEvent(fmt.Sprintf("net:epoch%d-dies-at-once", ep), 0, func() {
+					if kind == "eof" {
+						st.PeerEnd(nil)
+					} else {
+						st.PeerEnd(ErrReset())
+					}
+				})
+			}
 		}
 		lc.epochs = append(lc.epochs, e)
 	}
